@@ -7,7 +7,7 @@
    `write_deduped` and is checked on the implementation by the oracle, not stated as a theorem. *)
 From Coq Require Import List NArith.
 From BpafModel Require Import Help Eval.
-From BpafLemmas Require Import HelpItems HelpOrder HtmlLaws BalLaws.
+From BpafLemmas Require Import HelpItems HelpOrder HtmlLaws BalLaws HelpEntries.
 Import ListNotations.
 
 (* `vis p` (Lemmas/HelpItems.v) is the direct specification: the visible leaves of a parser in
@@ -68,6 +68,40 @@ Theorem C12_document_order :
         ++ dblock [] (i_header inf) ++ items ++ dblock [] (i_footer inf).
 Proof. exact render_help_order. Qed.
 Print Assumptions C12_document_order.
+
+(* One definition-list entry per non-duplicate item, nothing in between: written onto a document that does
+   not end in a text chunk, an item list is EXACTLY the concatenation, in order, of the entries
+   (`item_doc`: term, help body, environment line) of the items that survive the duplicate filter *)
+Theorem C12_item_list_is_its_entries :
+  forall env items include_env d seen keepf, closed d ->
+  write_deduped env d items seen keepf include_env =
+  d ++ flat_map (fun it => item_doc env it include_env) (kept items seen keepf).
+Proof. exact write_deduped_entries. Qed.
+Print Assumptions C12_item_list_is_its_entries.
+
+(* a section (`Available options:` ...) is absent when no item of its kind is left, otherwise it is the
+   header, the entries of the kept items of that kind, and the two closing tokens *)
+Theorem C12_section_is_header_and_entries :
+  forall env d items ty name include_env, closed d ->
+  write_help_items env d items ty name include_env =
+  d ++ match items_of_ty ty IBNo items with
+       | [] => []
+       | xs => [TStart BBlock; TStart BSection2; TText SEmphasis name; TEnd BSection2; TStart BDefinitionList]
+               ++ flat_map (fun it => item_doc env it include_env) (kept xs [] false)
+               ++ [TEnd BDefinitionList; TEnd BBlock]
+       end.
+Proof. exact help_section_entries. Qed.
+Print Assumptions C12_section_is_header_and_entries.
+
+(* the duplicate filter drops an item only when an entry with the same name, metavariable and help text
+   has already been written in the same list *)
+Theorem C12_dropped_items_are_duplicates :
+  forall items seen keepf it k,
+  In it items -> key_of it = Some k ->
+  In it (kept items seen keepf) \/ existsb (dkey_eqb k) seen = true \/
+  exists it' k', In it' (kept items seen keepf) /\ key_of it' = Some k' /\ dkey_eqb k k' = true.
+Proof. exact kept_or_duplicate. Qed.
+Print Assumptions C12_dropped_items_are_duplicates.
 
 (* the help document exists and its blocks are balanced, for every parser definition whose own documents
    (help texts, group titles, custom usage, description, header, footer: `odok`) are balanced -- the Doc
